@@ -257,9 +257,27 @@ CMD_POS = ['ct_plain', 'ct_capture', 'ct_feed', 'ct_capfeed', 'ct_env', 'ct_envo
            'ct_sub', 'rt_plain', 'rt_env', 'gen_args', 'gen_extra', 'gen_capture', 'gen_env',
            't_args', 't_env', 't_envobj', 't_workdir']
 ENV_POS = ['ct_env.env', 'ct_envobj.env', 'ct_capenv.env', 'rt_env.env', 'gen_env.env', 't_env.env', 't_envobj.env']
-ALL_POS = COMPILE_POS + LINK_POS + CMD_POS + ENV_POS
+# SCOPING of project-wide / global arguments: the same four functions called with `native: true`, and called inside
+# subprojects (an ordinary one, and one built for the build machine with subproject(native: true)).  Appended at the END of
+# ALL_POS so that the class schedule of the older positions does not move.
+SCOPE_COMPILE_POS = ['proj_args_nat', 'glob_args_nat', 'sp_proj_args', 'sp_proj_args_nat', 'spn_proj_args']
+SCOPE_LINK_POS = ['proj_link_args_nat', 'glob_link_args_nat', 'sp_proj_link_args', 'sp_proj_link_args_nat', 'spn_proj_link_args']
+ALL_POS = COMPILE_POS + LINK_POS + CMD_POS + ENV_POS + SCOPE_COMPILE_POS + SCOPE_LINK_POS
 # positions where a newline makes meson refuse to generate (checked by the reject probes only)
-NEWLINE_REJECTING = COMPILE_POS + LINK_POS + ['ct_env.env', 'rt_env.env', 'gen_env.env']
+NEWLINE_REJECTING = COMPILE_POS + LINK_POS + ['ct_env.env', 'rt_env.env', 'gen_env.env'] + SCOPE_COMPILE_POS + SCOPE_LINK_POS
+# position -> (family = the function that was called, machine the arguments were given for, project that gave them);
+# '*' = every project (global arguments).  Two positions of one family are the SAME function with another scope: a command
+# must carry the arguments of its own scope only.
+SCOPE: T.Dict[str, T.Tuple[str, str, str]] = {
+    'proj_args': ('proj_args', 'host', 'top'), 'proj_args_nat': ('proj_args', 'build', 'top'),
+    'sp_proj_args': ('proj_args', 'host', 'sp'), 'sp_proj_args_nat': ('proj_args', 'build', 'sp'),
+    'spn_proj_args': ('proj_args', 'default', 'spn'),
+    'glob_args': ('glob_args', 'host', '*'), 'glob_args_nat': ('glob_args', 'build', '*'),
+    'proj_link_args': ('proj_link_args', 'host', 'top'), 'proj_link_args_nat': ('proj_link_args', 'build', 'top'),
+    'sp_proj_link_args': ('proj_link_args', 'host', 'sp'), 'sp_proj_link_args_nat': ('proj_link_args', 'build', 'sp'),
+    'spn_proj_link_args': ('proj_link_args', 'default', 'spn'),
+    'glob_link_args': ('glob_link_args', 'host', '*'), 'glob_link_args_nat': ('glob_link_args', 'build', '*'),
+}
 # positions whose arguments are never shown to a shell at all do not exist: every one is listed above.
 
 
@@ -324,7 +342,8 @@ class _Builder:
         the position admits one (elsewhere meson refuses to generate: covered by the reject probes)."""
         out: T.List[str] = []
         if self.force is not None:
-            kind = 'compile' if pos in COMPILE_POS + LINK_POS else ('env' if pos.endswith('.env') else 'cmd')
+            kind = 'compile' if pos in COMPILE_POS + LINK_POS + SCOPE_COMPILE_POS + SCOPE_LINK_POS \
+                else ('env' if pos.endswith('.env') else 'cmd')
             forced = [x for x in self.force.get(kind, []) if allow_newline or '\n' not in x]
             if forced:
                 k = ALL_POS.index(pos)
@@ -510,7 +529,13 @@ def build_plan(idx: int, seed: int, tier: str, rsp: bool, newline_pos: T.Optiona
     call_lines: T.Dict[str, T.List[str]] = {}
     per_lang: T.Dict[str, T.Dict[str, T.List[str]]] = {}
 
-    def call_history(fn: str, pos: str, lst: T.List[str]) -> None:
+    # decisions of the scoping workload come from their own stream: the strings of the older positions do not move
+    mrng = random.Random(f'C03scope:{seed}:{tier}:{idx}')
+
+    def call_history(fn: str, pos: str, lst: T.List[str], native: T.Optional[bool] = None,
+                     rng: random.Random = rng) -> T.List[str]:
+        """native=None: the arguments of the host machine (`native:` omitted or spelled `native: false`);
+        True: `native: true`; False: `native:` always omitted (the project's own default machine)."""
         units: T.List[T.List[str]] = []
         inner = lst[1:-1]
         i_ = 0
@@ -530,14 +555,20 @@ def build_plan(idx: int, seed: int, tier: str, rsp: bool, newline_pos: T.Optiona
             calls.append((list(u), lg))
         last = (units[-1] if len(units) > 1 else []) + [lst[-1]]
         calls.append((last, both()))
-        call_lines[fn] = [f"{fn}({mlist(items)}, language: {mlist(lg) if len(lg) > 1 or rng.random() < 0.5 else mstr(lg[0])})"
-                          for items, lg in calls]
+        lines = [f"{fn}({mlist(items)}, language: {mlist(lg) if len(lg) > 1 or rng.random() < 0.5 else mstr(lg[0])}"
+                 for items, lg in calls]
+        for i_ in range(len(lines)):
+            if native is None:
+                lines[i_] += ', native: false)' if mrng.random() < 0.4 else ')'
+            else:
+                lines[i_] += ', native: true)' if native else ')'
         per_lang[pos] = {lg_: [a for items, lg in calls if lg_ in lg for a in items] for lg_ in langs_all}
+        return lines
 
-    call_history('add_project_arguments', 'proj_args', pa)
-    call_history('add_global_arguments', 'glob_args', ga)
-    call_history('add_project_link_arguments', 'proj_link_args', pla)
-    call_history('add_global_link_arguments', 'glob_link_args', gla)
+    call_lines['add_project_arguments'] = call_history('add_project_arguments', 'proj_args', pa)
+    call_lines['add_global_arguments'] = call_history('add_global_arguments', 'glob_args', ga)
+    call_lines['add_project_link_arguments'] = call_history('add_project_link_arguments', 'proj_link_args', pla)
+    call_lines['add_global_link_arguments'] = call_history('add_global_link_arguments', 'glob_link_args', gla)
 
     def lslot(pos: str, lang: str, bb: str, ee: str) -> dict:
         return {'pos': pos, 'b': bb, 'e': ee, 'args': per_lang[pos][lang][1:-1], 'lang': lang}
@@ -561,9 +592,11 @@ def build_plan(idx: int, seed: int, tier: str, rsp: bool, newline_pos: T.Optiona
     L.append("@CALIB@")
     # the four call histories, interleaved (order within one function kept)
     queues = [list(v) for v in call_lines.values()]
+    host_lines: T.List[str] = []
     while any(queues):
         q_ = rng.choice([q for q in queues if q])
-        L.append(q_.pop(0))
+        host_lines.append(q_.pop(0))
+    L.append('@SCOPE@')      # the calls above merged with their `native: true` siblings, then the subprojects (see below)
     if have_cpp():
         L.append("x1 = executable('x1', 'main.cpp')")
     L.append(f"dep1 = declare_dependency(compile_args: {mlist(dc)}, link_args: {mlist(dl)})")
@@ -816,6 +849,85 @@ def build_plan(idx: int, seed: int, tier: str, rsp: bool, newline_pos: T.Optiona
     outer_build = outer_for('ct_envobj.env', force is not None or idx % 2 == 0)
     outer_test = outer_for('t_envobj.env', force is not None or idx % 3 != 1)
 
+    # ---- SCOPING of project-wide / global arguments (Reference manual, add_global_arguments `native:` - "If true the
+    # arguments will only be used for native compilations", add_project_arguments - "only used for the current project, they
+    # won't be used in any other subproject"; executable() `native:` - which machine a target is compiled for).  The four
+    # functions are called for BOTH machines with distinct tagged lists, in the top project and in a subproject; targets
+    # are declared `native: true` and `native: false`/omitted in one (non-cross) build; a third project is built for the
+    # build machine as a whole (subproject(native: true), its own calls and target leave `native:` out).  Every compile
+    # and link line must carry exactly the lists of its own machine and project, per language.  Drawn last and from the
+    # scoping stream: the strings of every older position stay where they were.
+    b.rng = mrng
+
+    def merge(*seqs: T.Sequence[str]) -> T.List[str]:
+        qs = [list(q) for q in seqs if q]
+        res: T.List[str] = []
+        while any(qs):
+            q_ = mrng.choice([q for q in qs if q])
+            res.append(q_.pop(0))
+        return res
+
+    objname: T.Dict[str, str] = {}
+    linkout: T.Dict[str, str] = {}
+    sent: T.Dict[str, T.Tuple[str, str]] = {'proj_args': (pab, pae), 'glob_args': (gab, gae),
+                                             'proj_link_args': (plab, plae), 'glob_link_args': (glab, glae)}
+
+    def scoped_list(fn: str, pos: str, n: int, native: T.Optional[bool]) -> T.List[str]:
+        lst, bb, ee = b.compile_args(pos, n)
+        sent[pos] = (bb, ee)
+        return call_history(fn, pos, lst, native, mrng)
+
+    def scoped_target(lines: T.List[str], name: str, outdir: str, lang: str, native_kw: str,
+                      cpos: T.Sequence[str], lpos: T.Sequence[str]) -> None:
+        src = 'main.c' if lang == 'c' else 'main.cpp'
+        lines.append(f"executable({mstr(name)}, {mstr(src)}{native_kw})")
+        b.compile[name] = [lslot(p_, lang, *sent[p_]) for p_ in cpos] + ([slot('opt_c_args', oa, oab, oae)] if lang == 'c' else [])
+        b.link[name] = [lslot(p_, lang, *sent[p_]) for p_ in lpos] + ([slot('opt_c_link_args', ola, olab, olae)] if lang == 'c' else [])
+        objname[name] = f'{outdir}{name}.p/{src}.o'
+        linkout[name] = outdir + name
+
+    nat_lines = [scoped_list('add_project_arguments', 'proj_args_nat', nargs, True),
+                 scoped_list('add_global_arguments', 'glob_args_nat', nargs, True),
+                 scoped_list('add_project_link_arguments', 'proj_link_args_nat', nargs, True),
+                 scoped_list('add_global_link_arguments', 'glob_link_args_nat', nargs, True)]
+    scope_lines = merge(host_lines, *nat_lines)
+    T_: T.List[str] = []
+    for lang_ in langs_all:
+        scoped_target(T_, 'n1' if lang_ == 'c' else 'nx1', '', lang_, ', native: true',
+                      ['proj_args_nat', 'glob_args_nat'], ['proj_link_args_nat', 'glob_link_args_nat'])
+    proj_langs = ', '.join(mstr(l_) for l_ in langs_all)
+    # an ordinary subproject: its own project (link) arguments for both machines, one target per machine
+    SP = [f"project('sp', {proj_langs})"]
+    SP += merge(scoped_list('add_project_arguments', 'sp_proj_args', 3, None),
+                scoped_list('add_project_arguments', 'sp_proj_args_nat', 3, True),
+                scoped_list('add_project_link_arguments', 'sp_proj_link_args', 3, None),
+                scoped_list('add_project_link_arguments', 'sp_proj_link_args_nat', 3, True))
+    sp_t: T.List[T.List[str]] = [[], []]
+    scoped_target(sp_t[0], 'sp_h', 'subprojects/sp/', mrng.choice(langs_all), ', native: false' if mrng.random() < 0.4 else '',
+                  ['sp_proj_args', 'glob_args'], ['sp_proj_link_args', 'glob_link_args'])
+    scoped_target(sp_t[1], 'sp_n', 'subprojects/sp/', mrng.choice(langs_all), ', native: true',
+                  ['sp_proj_args_nat', 'glob_args_nat'], ['sp_proj_link_args_nat', 'glob_link_args_nat'])
+    SP += merge(*sp_t)
+    # a subproject built for the build machine: global arguments of the build machine, its own project arguments
+    SPN = [f"project('spn', {proj_langs})"]
+    SPN += merge(scoped_list('add_project_arguments', 'spn_proj_args', 3, False),
+                 scoped_list('add_project_link_arguments', 'spn_proj_link_args', 3, False))
+    scoped_target(SPN, 'spn_t', 'subprojects/spn/', mrng.choice(langs_all), '',
+                  ['spn_proj_args', 'glob_args_nat'], ['spn_proj_link_args', 'glob_link_args_nat'])
+    # The order of the two subproject() calls is fixed per project, not drawn: a project configured AFTER a build-machine
+    # subproject is the directed probe of a finding (known_findings.d/C03.json, repaired in /repo 7ef0efb): idx % 8 in
+    # (1, 6), one response-file project and one plain project of eight; the others call the ordinary subproject first.
+    sub_order = ['spn', 'sp'] if idx % 8 in (1, 6) else ['sp', 'spn']
+    sub_call = {'sp': "subproject('sp')", 'spn': "subproject('spn', native: true)"}
+    L += merge(T_, [sub_call[n_] for n_ in sub_order])
+    for d_, lines_ in (('subprojects/sp/', SP), ('subprojects/spn/', SPN)):
+        files[d_ + 'meson.build'] = '\n'.join(lines_) + '\n'
+        files[d_ + 'main.c'] = files['main.c']
+        if have_cpp():
+            files[d_ + 'main.cpp'] = files['main.cpp']
+    scope_all = {p_: sorted({a for lg_ in per_lang[p_].values() for a in lg_}) for p_ in SCOPE}
+    b.rng = rng
+
     # ---- literal calibration: the interpreter's values, dumped at configure time without any shell
     calib = list(dict.fromkeys(b.calib))
     chunks = [calib[i:i + 40] for i in range(0, len(calib), 40)] or [[]]
@@ -823,7 +935,7 @@ def build_plan(idx: int, seed: int, tier: str, rsp: bool, newline_pos: T.Optiona
     for i, ch in enumerate(chunks):
         cl.append(f"run_command(dump, {mstr('ID:calib%d' % i)}, {mlist(ch)}, check: true)")
     cl.append("run_command(dump, 'ID:calibopt', get_option('c_args'), '<sep>', get_option('c_link_args'), check: true)")
-    text = '\n'.join(L).replace('@CALIB@', '\n'.join(cl)) + '\n'
+    text = '\n'.join(L).replace('@SCOPE@', '\n'.join(scope_lines)).replace('@CALIB@', '\n'.join(cl)) + '\n'
     files['meson.build'] = text
     files['sub/meson.build'] = '\n'.join(S) + '\n'
     return {
@@ -833,6 +945,7 @@ def build_plan(idx: int, seed: int, tier: str, rsp: bool, newline_pos: T.Optiona
         'calib': chunks, 'calibopt': list(oa) + ['<sep>'] + list(ola),
         'cmd': b.cmd, 'compile': b.compile, 'link': b.link, 'run_targets': run_targets, 'env_forms': env_forms_used, 'test_repeat': test_repeat,
         'envops': envops, 'outer_env_build': outer_build, 'outer_env_test': outer_test,
+        'objname': objname, 'linkout': linkout, 'scope_all': scope_all, 'sub_order': sub_order,
         'strings': b.strings,
     }
 
